@@ -4,7 +4,7 @@
 part's mutation table (notes/<part>_mutations.md) as a sub-section."""
 import os, re
 ROOT = os.path.dirname(os.path.dirname(os.path.abspath(__file__)))
-ORDER = ["sink", "driver", "par", "rice", "lpc", "parser"]
+ORDER = ["sink", "utf8", "driver", "par", "lpc", "rice", "parser"]
 out = []
 n = 13
 for part in ORDER:
